@@ -1,1 +1,351 @@
-// cfg(kani) child module of src/.../data_model.rs (see DESIGN.md §1.1)
+// cfg(kani) child module of src/data_model.rs: column extraction from split fields (C01), JSON array
+// paths (C02) and the admission rule of TableDefinition::extract (C06 part 1).
+// The regex engine and serde_json's parser are environment: `ParsingInput::new` is replaced by a stub
+// that hands the real extraction code an arbitrary split result / JSON document (symbolic leaves).
+#![allow(dead_code, unused_imports, unused_macros, static_mut_refs)]
+
+use std::mem::ManuallyDrop;
+
+use crate::model::{Float, Value, ValueType};
+use crate::verif_kani::common::*;
+use crate::verif_kani::shim::HashMap as ShimMap;
+
+use super::{ColumnDefinition, ColumnOptions, ColumnParsing, JsonAccess, ParsingInput, RegexResult, RegexResultReference, Row, TableDefinition};
+
+// ---- the environment: what the patterns / the JSON parser found on this line ----------------------
+static mut FIELDS: [Option<&'static str>; 3] = [None, None, None];   // split result (index 0 = whole line)
+static mut NUM_FIELDS: usize = 0;
+static mut PATTERN_MATCHED: bool = true;
+static mut JSON: Option<serde_json::Value> = None;
+static mut PATTERN_NAME: Option<&'static String> = None;
+
+fn pattern_name() -> &'static String {
+    unsafe {
+        if PATTERN_NAME.is_none() {
+            let mut s = String::new();
+            s.push('p');
+            PATTERN_NAME = Some(Box::leak(Box::new(s)));
+        }
+        PATTERN_NAME.unwrap()
+    }
+}
+
+fn stub_parsing_input_new<'a>(_table: &'a TableDefinition, _line: &'a str) -> ParsingInput<'a> where 'a: 'a {
+    let mut regex_results = ShimMap::new();
+    unsafe {
+        if PATTERN_MATCHED {
+            let mut fields: Vec<&'a str> = Vec::new();
+            if NUM_FIELDS > 0 { fields.push(FIELDS[0].unwrap()); }
+            if NUM_FIELDS > 1 { fields.push(FIELDS[1].unwrap()); }
+            if NUM_FIELDS > 2 { fields.push(FIELDS[2].unwrap()); }
+            regex_results.insert(pattern_name(), RegexResult::Split(fields));
+        }
+        ParsingInput { regex_results, json_value: JSON.take().unwrap_or(serde_json::Value::Null) }
+    }
+}
+
+/// a symbolic field of at most 2 bytes over an alphabet that contains digits, sign, a letter and a space
+fn any_field() -> (usize, u8, u8, &'static str) {
+    let len: usize = kani::any();
+    kani::assume(len <= 2);
+    let b0: u8 = kani::any();
+    let b1: u8 = kani::any();
+    kani::assume(b0 == b'-' || b0 == b'+' || b0 == b' ' || b0 == b'x' || (b0 >= b'0' && b0 <= b'9'));
+    kani::assume(b1 == b'-' || b1 == b' ' || b1 == b'x' || (b1 >= b'0' && b1 <= b'9'));
+    let mut s = String::new();
+    if len > 0 { s.push(b0 as char); }
+    if len > 1 { s.push(b1 as char); }
+    (len, b0, b1, Box::leak(s.into_boxed_str()))
+}
+
+fn digit(b: u8) -> Option<i64> { if b >= b'0' && b <= b'9' { Some((b - b'0') as i64) } else { None } }
+
+/// reference: the INT literal denoted by a field of <= 2 bytes (Rust / SQL integer syntax: [+-]?digits)
+fn ref_int(len: usize, b0: u8, b1: u8) -> Option<i64> {
+    match len {
+        1 => digit(b0),
+        2 => match (b0, digit(b0), digit(b1)) {
+            (b'-', _, Some(d)) => Some(-d),
+            (b'+', _, Some(d)) => Some(d),
+            (_, Some(d0), Some(d1)) => Some(d0 * 10 + d1),
+            _ => None,
+        },
+        _ => None,
+    }
+}
+
+fn regex_column(group_index: usize, column_type: ValueType, nullable: bool, default_value: Option<Value>) -> ColumnDefinition {
+    let mut options = ColumnOptions::new();
+    options.nullable = nullable;
+    options.default_value = default_value;
+    ColumnDefinition::with_options(
+        ColumnParsing::Regex(RegexResultReference { pattern_name: pattern_name().clone(), group_index }),
+        "c", column_type, options)
+}
+
+macro_rules! extraction_proof {
+    ($(#[$m:meta])* fn $name:ident() $body:block) => {
+        #[kani::proof]
+        #[kani::stub(regex::Regex::new, crate::verif_kani::common::stub_regex_new)]
+        #[kani::stub(chrono::Local::now, crate::verif_kani::common::stub_local_now)]
+        #[kani::stub(<chrono::Local as chrono::TimeZone>::offset_from_local_datetime, crate::verif_kani::common::stub_offset_from_local_datetime)]
+        #[kani::stub(<chrono::Local as chrono::TimeZone>::offset_from_utc_datetime, crate::verif_kani::common::stub_offset_from_utc_datetime)]
+        #[kani::stub(chrono::NaiveDateTime::parse_from_str, crate::verif_kani::common::stub_naive_parse_from_str)]
+        #[kani::stub(alloc::fmt::format, crate::verif_kani::common::stub_format)]
+        #[kani::stub(crate::data_model::ParsingInput::new, stub_parsing_input_new)]
+        $(#[$m])*
+        fn $name() $body
+    };
+}
+
+fn cell_int(row: &Row, i: usize) -> Option<i64> { if let Some(Value::Int(x)) = row.columns.get(i) { Some(*x) } else { None } }
+fn cell_null(row: &Row, i: usize) -> bool { matches!(row.columns.get(i), Some(Value::Null)) }
+fn cell_bool(row: &Row, i: usize) -> Option<bool> { if let Some(Value::Bool(x)) = row.columns.get(i) { Some(*x) } else { None } }
+
+// ------------------------------------------------------------------------------------------------
+// C01: one INT column on split field 1, with or without DEFAULT: the value is exactly the literal of the
+// referenced field; DEFAULT only when the pattern or field did not take part; NULL when not a literal.
+extraction_proof! {
+    #[kani::unwind(4)]
+    fn c01_split_int_default() {
+        let (len, b0, b1, field) = any_field();
+        let matched: bool = kani::any();
+        let nfields: usize = kani::any();
+        kani::assume(nfields >= 1 && nfields <= 2);
+        let has_default: bool = kani::any();
+        let d: i64 = kani::any();
+        unsafe {
+            PATTERN_MATCHED = matched;
+            NUM_FIELDS = nfields;
+            FIELDS = [Some("whole line"), Some(field), None];
+        }
+        let column = regex_column(1, ValueType::Int, true, if has_default { Some(Value::Int(d)) } else { None });
+        let table = ManuallyDrop::new(TableDefinition::new("t", Vec::new(), vec![column]).unwrap());
+        let row = ManuallyDrop::new(table.extract(""));
+        let took_part = matched && nfields == 2;
+        if !took_part {
+            if has_default { assert!(cell_int(&row, 0) == Some(d), "C01 DEFAULT when the pattern or group did not take part"); }
+            else { assert!(row.columns.is_empty() || cell_null(&row, 0), "C01 NULL when the pattern or group did not take part"); }
+        } else {
+            match ref_int(len, b0, b1) {
+                Some(v) => assert!(cell_int(&row, 0) == Some(v), "C01 the column holds exactly the literal of the referenced field"),
+                None => assert!(cell_null(&row, 0), "C01 NULL when the text is not a literal of the type (DEFAULT is not used)"),
+            }
+        }
+        kani::cover!(took_part && ref_int(len, b0, b1).is_none() && has_default, "c01: unparsable with DEFAULT reachable");
+        kani::cover!(took_part && len == 2 && b0 == b'-', "c01: negative literal reachable");
+    }
+}
+
+// BOOLEAN means the group's existence
+extraction_proof! {
+    #[kani::unwind(4)]
+    fn c01_split_boolean() {
+        let (_len, _b0, _b1, field) = any_field();
+        let nfields: usize = kani::any();
+        kani::assume(nfields >= 1 && nfields <= 2);
+        unsafe { PATTERN_MATCHED = true; NUM_FIELDS = nfields; FIELDS = [Some("whole line"), Some(field), None]; }
+        let column = regex_column(1, ValueType::Bool, true, None);
+        let table = ManuallyDrop::new(TableDefinition::new("t", Vec::new(), vec![column]).unwrap());
+        let row = ManuallyDrop::new(table.extract(""));
+        assert!(cell_bool(&row, 0) == Some(nfields == 2), "C01 BOOLEAN means the group's existence");
+        kani::cover!(nfields == 1, "c01 bool: absent reachable");
+    }
+}
+
+// a value is never taken from another field: two INT columns on fields 1 and 2
+extraction_proof! {
+    #[kani::unwind(4)]
+    fn c01_split_two_columns() {
+        let (l1, a0, a1, f1) = any_field();
+        let (l2, c0, c1, f2) = any_field();
+        unsafe { PATTERN_MATCHED = true; NUM_FIELDS = 3; FIELDS = [Some("whole line"), Some(f1), Some(f2)]; }
+        let swap: bool = kani::any();
+        let (g1, g2) = if swap { (2, 1) } else { (1, 2) };
+        let table = ManuallyDrop::new(TableDefinition::new("t", Vec::new(), vec![regex_column(g1, ValueType::Int, true, None), regex_column(g2, ValueType::Int, true, None)]).unwrap());
+        let row = ManuallyDrop::new(table.extract(""));
+        let (e1, e2) = (ref_int(l1, a0, a1), ref_int(l2, c0, c1));
+        let (x1, x2) = if swap { (e2, e1) } else { (e1, e2) };
+        if x1.is_some() || x2.is_some() {
+            assert!(cell_int(&row, 0) == x1 && (x1.is_some() || cell_null(&row, 0)), "C01 each column holds its own field");
+            assert!(cell_int(&row, 1) == x2 && (x2.is_some() || cell_null(&row, 1)), "C01 each column holds its own field");
+        }
+        kani::cover!(x1.is_some() && x2.is_some() && swap, "c01 two columns: both parsed, swapped reachable");
+    }
+}
+
+// array column assembled position by position; NULL element keeps its place; DEFAULT/NULL only when every element is NULL
+extraction_proof! {
+    #[kani::unwind(4)]
+    fn c01_split_array() {
+        let (l1, a0, a1, f1) = any_field();
+        let (l2, c0, c1, f2) = any_field();
+        let nfields: usize = kani::any();
+        kani::assume(nfields >= 1 && nfields <= 3);
+        unsafe { PATTERN_MATCHED = true; NUM_FIELDS = nfields; FIELDS = [Some("whole line"), Some(f1), Some(f2)]; }
+        let mut options = ColumnOptions::new();
+        options.nullable = true;
+        let column = ColumnDefinition::with_options(
+            ColumnParsing::MultiRegex(vec![RegexResultReference { pattern_name: pattern_name().clone(), group_index: 1 },
+                                           RegexResultReference { pattern_name: pattern_name().clone(), group_index: 2 }]),
+            "c", ValueType::Array(Box::new(ValueType::Int)), options);
+        let table = ManuallyDrop::new(TableDefinition::new("t", Vec::new(), vec![column]).unwrap());
+        let row = ManuallyDrop::new(table.extract(""));
+        let e1 = if nfields >= 2 { ref_int(l1, a0, a1) } else { None };
+        let e2 = if nfields >= 3 { ref_int(l2, c0, c1) } else { None };
+        if e1.is_none() && e2.is_none() {
+            assert!(row.columns.is_empty() || cell_null(&row, 0), "C01 an array whose elements are all NULL is NULL");
+        } else {
+            let ok = if let Some(Value::Array(ValueType::Int, items)) = row.columns.get(0) {
+                items.len() == 2
+                    && match (&items[0], e1) { (Value::Int(x), Some(v)) => *x == v, (Value::Null, None) => true, _ => false }
+                    && match (&items[1], e2) { (Value::Int(x), Some(v)) => *x == v, (Value::Null, None) => true, _ => false }
+            } else { false };
+            assert!(ok, "C01 array columns are assembled position by position from their listed groups");
+        }
+        kani::cover!(e1.is_some() && e2.is_none(), "c01 array: last element NULL reachable");
+    }
+}
+
+// ------------------------------------------------------------------------------------------------
+// C06 part 1: the admission rule - a line becomes a row iff some column is non-NULL (DEFAULT counts)
+// and every NOT NULL column is non-NULL.  Two INT columns on fields 1 and 2, modifiers symbolic.
+extraction_proof! {
+    #[kani::unwind(4)]
+    fn c06_admission_two_columns() {
+        let (l1, a0, a1, f1) = any_field();
+        let (l2, c0, c1, f2) = any_field();
+        let nfields: usize = kani::any();
+        kani::assume(nfields >= 1 && nfields <= 3);
+        let matched: bool = kani::any();
+        unsafe { PATTERN_MATCHED = matched; NUM_FIELDS = nfields; FIELDS = [Some("whole line"), Some(f1), Some(f2)]; }
+        let (nullable1, nullable2): (bool, bool) = (kani::any(), kani::any());
+        let has_default1: bool = kani::any();
+        let table = ManuallyDrop::new(TableDefinition::new("t", Vec::new(), vec![
+            regex_column(1, ValueType::Int, nullable1, if has_default1 { Some(Value::Int(0)) } else { None }),
+            regex_column(2, ValueType::Int, nullable2, None)]).unwrap());
+        let row = ManuallyDrop::new(table.extract(""));
+        // expected column values
+        let took1 = matched && nfields >= 2;
+        let took2 = matched && nfields >= 3;
+        let v1_nonnull = if took1 { ref_int(l1, a0, a1).is_some() } else { has_default1 };
+        let v2_nonnull = took2 && ref_int(l2, c0, c1).is_some();
+        let expected = (v1_nonnull || v2_nonnull) && (nullable1 || v1_nonnull) && (nullable2 || v2_nonnull);
+        assert!(row.any_result() == expected, "C06 a line becomes a row iff a column is non-NULL and every NOT NULL column is non-NULL");
+        if expected { assert!(row.columns.len() == 2, "C06 an admitted row has every column"); }
+        kani::cover!(expected && !nullable1 && !nullable2, "c06 admission: two NOT NULL columns admitted reachable");
+        kani::cover!(!expected && v2_nonnull && !nullable1, "c06 admission: rejected by the first NOT NULL column reachable");
+    }
+}
+
+// ------------------------------------------------------------------------------------------------
+// C02: JSON array paths `{[i]}` / `{[i][j]}` on a JSON array document with symbolic leaves.
+fn any_json_leaf() -> (u8, i64, u64, f64, bool, serde_json::Value) {
+    let kind: u8 = kani::any();
+    kani::assume(kind < 6);
+    let i: i64 = kani::any();
+    let u: u64 = kani::any();
+    let f: f64 = kani::any();
+    kani::assume(f.is_finite());
+    let b: bool = kani::any();
+    let v = match kind {
+        0 => serde_json::Value::Null,
+        1 => serde_json::Value::Bool(b),
+        2 => serde_json::Value::Number(serde_json::Number::from(i)),
+        3 => serde_json::Value::Number(serde_json::Number::from(u)),
+        4 => serde_json::Value::Number(serde_json::Number::from_f64(f).unwrap()),
+        _ => serde_json::Value::String(String::new()),
+    };
+    (kind, i, u, f, b, v)
+}
+
+fn json_column(access: JsonAccess, column_type: ValueType, default_value: Option<Value>) -> ColumnDefinition {
+    let mut options = ColumnOptions::new();
+    options.default_value = default_value;
+    ColumnDefinition::with_options(ColumnParsing::Json(access), "c", column_type, options)
+}
+
+macro_rules! json_harness {
+    ($name:ident, $ty:expr, $tyk:expr) => {
+        extraction_proof! {
+            #[kani::unwind(4)]
+            fn $name() {
+                let (kind, i, u, f, b, leaf) = any_json_leaf();
+                let index: usize = kani::any();
+                kani::assume(index <= 2);
+                let has_default: bool = kani::any();
+                // document: [leaf, "x"]  (index 0 -> leaf, index 1 -> a string, index 2 -> absent)
+                unsafe {
+                    PATTERN_MATCHED = false;
+                    JSON = Some(serde_json::Value::Array(vec![leaf, serde_json::Value::String(String::new())]));
+                }
+                let default = if has_default { Some(match $tyk { 0 => Value::Int(7), 1 => Value::Float(Float(7.0)), 2 => Value::Bool(true), _ => Value::String(String::new()) }) } else { None };
+                let column = json_column(JsonAccess::Array { index, inner: None }, $ty, default);
+                let table = ManuallyDrop::new(TableDefinition::new("t", Vec::new(), vec![column]).unwrap());
+                let row = ManuallyDrop::new(table.extract(""));
+                let c = row.columns.get(0);
+                if index == 2 {
+                    // path absent: DEFAULT or NULL
+                    if has_default { assert!(c.is_some() && !c.unwrap().is_null(), "C02 DEFAULT when the path is absent"); }
+                    else { assert!(c.is_none() || c.unwrap().is_null(), "C02 NULL when the path is absent"); }
+                } else if index == 1 {
+                    // a JSON string: TEXT yields it, every other type NULL (no coercion; DEFAULT is not used)
+                    if $tyk == 3 { assert!(matches!(c, Some(Value::String(_))), "C02 TEXT only from strings"); }
+                    else { assert!(c.is_none() || c.unwrap().is_null(), "C02 NULL when the JSON value has another type"); }
+                } else {
+                    let ok = match ($tyk, kind) {
+                        (0, 2) => matches!(c, Some(Value::Int(x)) if *x == i),
+                        (0, 3) => if u <= i64::MAX as u64 { matches!(c, Some(Value::Int(x)) if *x == u as i64) } else { c.is_none() || c.unwrap().is_null() },
+                        (1, 2) => matches!(c, Some(Value::Float(x)) if x.0 == i as f64),
+                        (1, 3) => matches!(c, Some(Value::Float(x)) if x.0 == u as f64),
+                        (1, 4) => matches!(c, Some(Value::Float(x)) if x.0 == f),
+                        (2, 1) => matches!(c, Some(Value::Bool(x)) if *x == b),
+                        (3, 5) => matches!(c, Some(Value::String(_))),
+                        _ => c.is_none() || c.unwrap().is_null(),
+                    };
+                    assert!(ok, "C02 the column holds the addressed JSON value typed without coercion, NULL on a type mismatch (DEFAULT is not used)");
+                }
+                kani::cover!(index == 0 && kind == 3 && u > i64::MAX as u64, "c02: u64 beyond i64 reachable");
+                kani::cover!(index == 0 && kind == 0 && has_default, "c02: JSON null with DEFAULT reachable");
+            }
+        }
+    };
+}
+json_harness!(c02_json_index_int, ValueType::Int, 0);
+json_harness!(c02_json_index_real, ValueType::Float, 1);
+json_harness!(c02_json_index_boolean, ValueType::Bool, 2);
+json_harness!(c02_json_index_text, ValueType::String, 3);
+
+// nested index path built by JsonAccess::from_linear: {[i][j]} on [[leaf, true], 5]
+extraction_proof! {
+    #[kani::unwind(4)]
+    fn c02_json_nested_path() {
+        let (kind, i, _u, _f, _b, leaf) = any_json_leaf();
+        let i0: usize = kani::any();
+        let i1: usize = kani::any();
+        kani::assume(i0 <= 2 && i1 <= 2);
+        unsafe {
+            PATTERN_MATCHED = false;
+            JSON = Some(serde_json::Value::Array(vec![
+                serde_json::Value::Array(vec![leaf, serde_json::Value::Bool(true)]),
+                serde_json::Value::Number(serde_json::Number::from(5i64))]));
+        }
+        let access = JsonAccess::from_linear(vec![JsonAccess::Array { index: i0, inner: None }, JsonAccess::Array { index: i1, inner: None }]);
+        let column = json_column(access, ValueType::Int, None);
+        let table = ManuallyDrop::new(TableDefinition::new("t", Vec::new(), vec![column]).unwrap());
+        let row = ManuallyDrop::new(table.extract(""));
+        let c = row.columns.get(0);
+        if i0 == 0 && i1 == 0 && kind == 2 {
+            assert!(matches!(c, Some(Value::Int(x)) if *x == i), "C02 a nested path addresses exactly that element");
+        } else {
+            // every other path is absent, leads through a non-array, or ends at a non-integer
+            assert!(c.is_none() || c.unwrap().is_null(), "C02 NULL when the path is absent or the value has another type");
+        }
+        kani::cover!(i0 == 0 && i1 == 0 && kind == 2, "c02 nested: hit reachable");
+        kani::cover!(i0 == 1, "c02 nested: through a number reachable");
+    }
+}
+
+#[cfg(test)]
+#[path = "/verif/.cache/playback/data_model.rs"]
+mod playback_gen;
